@@ -251,8 +251,8 @@ def l : Str := [108]
 def o : Str := [111]
 def v1 : Str := [49]
 def ex : State :=
-  { decls := [⟨a, v1, [⟨false, false, l, none, false⟩], false⟩, ⟨l, v1, [], false⟩,
-              ⟨o, v1, [⟨false, false, l, none, false⟩], false⟩]
+  { decls := [⟨a, v1, [⟨false, false, l, none, false, false⟩], false⟩, ⟨l, v1, [], false⟩,
+              ⟨o, v1, [⟨false, false, l, none, false, false⟩], false⟩]
     tags := [(a, currentTag, v1), (l, currentTag, v1), (o, currentTag, v1)]
     dirs := [(a, v1), (l, v1), (o, v1)] }
 
@@ -264,7 +264,7 @@ example : (remove ex a v1 false true false none).2.1.decls.map (·.name) = [l, o
 def x : Str := [120]
 def y : Str := [121]
 def cyc : State :=
-  { decls := [⟨x, v1, [⟨false, false, y, none, false⟩], false⟩, ⟨y, v1, [⟨false, false, x, none, false⟩], false⟩]
+  { decls := [⟨x, v1, [⟨false, false, y, none, false, false⟩], false⟩, ⟨y, v1, [⟨false, false, x, none, false, false⟩], false⟩]
     tags := [(x, currentTag, v1), (y, currentTag, v1)]
     dirs := [(x, v1), (y, v1)] }
 example : (remove cyc x v1 true false false none).2.2 = [⟨x, some v1, true⟩, ⟨y, some v1, true⟩] := by decide
